@@ -10,9 +10,9 @@ import subprocess
 import time
 
 VERIF = os.path.dirname(os.path.dirname(os.path.abspath(__file__)))
-LEAN_DIR = os.path.join(VERIF, "lean")
+LEAN_DIR = os.environ.get("VERIF_LEAN_DIR") or os.path.join(VERIF, "lean")
 DRIVER = os.path.join(LEAN_DIR, ".lake", "build", "bin", "cattrs_model")
-REGISTRY = os.path.join(LEAN_DIR, "props_registry.json")
+REGISTRY_DIR = os.path.join(LEAN_DIR, "registry.d")
 ALLOWED_AXIOMS = {"propext", "Classical.choice", "Quot.sound"}
 FORBIDDEN = re.compile(r"\b(sorry|admit|native_decide|bv_decide|implemented_by|unsafe)\b|^\s*axiom\s|maxHeartbeats\s+0")
 
@@ -26,7 +26,7 @@ def _sources():
     for root, dirs, files in os.walk(LEAN_DIR):
         dirs[:] = [d for d in dirs if d not in (".lake",)]
         for f in files:
-            if f.endswith(".lean") or f in ("lakefile.toml", "props_registry.json"):
+            if f.endswith(".lean") or f == "lakefile.toml" or (f.endswith(".json") and "registry.d" in root):
                 out.append(os.path.join(root, f))
     return sorted(out)
 
@@ -79,6 +79,21 @@ def grep_forbidden():
     return hits
 
 
+def load_registry():
+    """Merge lean/registry.d/*.json: {prop: {modules: [...], theorems: [...], status: {thm: full|partial|witness}}}"""
+    reg = {}
+    if os.path.isdir(REGISTRY_DIR):
+        for f in sorted(os.listdir(REGISTRY_DIR)):
+            if not f.endswith(".json"):
+                continue
+            for k, v in json.load(open(os.path.join(REGISTRY_DIR, f))).items():
+                e = reg.setdefault(k, {"modules": [], "theorems": [], "status": {}})
+                e["modules"] += [m for m in v.get("modules", []) if m not in e["modules"]]
+                e["theorems"] += [t for t in v.get("theorems", []) if t not in e["theorems"]]
+                e["status"].update(v.get("status", {}))
+    return reg
+
+
 def build_and_audit(log=print):
     """lake build (serialised by a lock) and `#print axioms` for every registered theorem.
     Returns {theorem: [axioms]}.  Cached on the digest of the Lean sources."""
@@ -96,7 +111,7 @@ def build_and_audit(log=print):
         r = subprocess.run(["lake", "build"], cwd=LEAN_DIR, capture_output=True, text=True)
         if r.returncode != 0:
             raise InfraError("lake build failed:\n" + r.stdout[-4000:] + r.stderr[-2000:])
-        reg = json.load(open(REGISTRY))
+        reg = load_registry()
         names = sorted({t for ts in reg.values() for t in ts["theorems"]})
         mods = sorted({m for ts in reg.values() for m in ts["modules"]})
         audit = "\n".join([f"import {m}" for m in mods] + [f"#print axioms {n}" for n in names]) + "\n"
@@ -125,8 +140,10 @@ def gate(prop_id):
     if hits:
         raise InfraError("forbidden tokens in Lean sources:\n" + "\n".join(hits))
     axioms, build_s = build_and_audit()
-    reg = json.load(open(REGISTRY))
+    reg = load_registry()
     ent = reg.get(prop_id, {"theorems": [], "modules": []})
+    if not ent["theorems"]:
+        raise InfraError(f"no theorem is registered for {prop_id} in lean/registry.d")
     res = {"obligations": len(ent["theorems"]), "discharged": 0, "theorems": {}, "bad": [], "build_s": build_s,
            "status": ent.get("status", {})}
     for t in ent["theorems"]:
